@@ -13,7 +13,7 @@ Require Import Verif.Db.Depth Verif.Db.DepthProps Verif.Gen.DbTables Verif.Db.Sc
 (* ================================================================ "declared the same" *)
 Definition strip (c:col) : col := C (cname c) 0%N (cprim c) (csize c) (cref c) (cpk c) (cauto c).
 Definition prim_eqb (a b:prim) : bool :=
-  match a, b with PString, PString | PInt, PInt | PDate, PDate | POther, POther => true | _, _ => false end.
+  match a, b with PString, PString | PInt, PInt | PDate, PDate | POther, POther | PRef1, PRef1 => true | _, _ => false end.
 Definition ref_eqb (a b:option (name*name)) : bool :=
   match a, b with Some x, Some y => key_eqb x y | None, None => true | _, _ => false end.
 Definition col_sameb (a b:col) : bool :=
